@@ -12,6 +12,8 @@
 (*   <<"mlenbig", s, d, n>>    shortest_mesh_path_length far out in the    *)
 (*                             mesh: every number as <<hi, lo>>, meaning   *)
 (*                             hi * 2^30 + lo with 0 <= lo < 2^30          *)
+(*   <<"mvecbig", s, d, v>>    shortest_mesh_path(s, d) = v (or, with s = 0,  *)
+(*                             minimise_xyz(d) = v) far out, as <<hi, lo>>  *)
 (*   <<"min",  v, r>>          minimise_xyz(v) = r                         *)
 (*   <<"ldf",  v, start, ww, wh, path>>  longest_dimension_first(v, start, *)
 (*                             ww, wh) = path (ww / wh = 0 for None);      *)
@@ -53,7 +55,20 @@ Traces == JsonDeserialize(IOEnv.TRACE_FILE)
 TorusTab == TLCEval([W \in 1..MaxW |-> TLCEval([H \in 1..MaxW |-> TorusDistFrom(<<0, 0>>, W, H)])])
 MeshTab  == TLCEval(MeshDistFromOrigin(MeshN))
 
-TorusDist(a, b, W, H) == TorusTab[W][H][<<(b[1] - a[1]) % W, (b[2] - a[2]) % H>>]
+\* Tori larger than the tables: the torus is the mesh folded by the lattice {(i*W, j*H)}, so its graph distance is
+\* the least mesh distance to any image of the destination.  A mesh distance is at least the larger coordinate
+\* and the image inside the torus is nearer than Max2(W, H), so only images with both coordinates below that
+\* bound can be nearest.  (MeshClosed is shown equal to the breadth-first mesh distance by HexDesign.)
+TorusCover(dx, dy, W, H) ==
+    LET x0 == dx % W   y0 == dy % H   bound == Max2(W, H)
+        cands == { MeshClosed(x0 + i * W, y0 + j * H) :
+                     i \in (-(bound \div W) - 1)..(bound \div W), j \in (-(bound \div H) - 1)..(bound \div H) }
+    IN  CHOOSE m \in cands : \A n \in cands : m <= n
+\* ... and it IS the breadth-first distance on every torus of the tables (thin ones included)
+ASSUME \A W \in 1..MaxW, H \in 1..MaxW : \A c \in DOMAIN TorusTab[W][H] : TorusCover(c[1], c[2], W, H) = TorusTab[W][H][c]
+
+TorusDist(a, b, W, H) == IF W <= MaxW /\ H <= MaxW THEN TorusTab[W][H][<<(b[1] - a[1]) % W, (b[2] - a[2]) % H>>]
+                         ELSE TorusCover(b[1] - a[1], b[2] - a[2], W, H)
 MeshDist(a, b)        == MeshTab[<<b[1] - a[1], b[2] - a[2]>>]
 
 VARIABLES tid, ei, verdict
@@ -87,6 +102,13 @@ Checks(e) ==
             dx == BSub(BSub(D[1], D[3]), BSub(S[1], S[3]))
             dy == BSub(BSub(D[2], D[3]), BSub(S[2], S[3]))
         IN [LenIsDist |-> <<e[4][1], e[4][2]>> = MeshClosedBig(dx, dy)]
+    [] e[1] = "mvecbig" ->      \* shortest_mesh_path / minimise_xyz far out in the mesh, every number as <<hi, lo>>
+        LET S == e[2]  D == e[3]  vec == e[4]
+            dx == BSub(BSub(D[1], D[3]), BSub(S[1], S[3]))
+            dy == BSub(BSub(D[2], D[3]), BSub(S[2], S[3]))
+            Lim(i) == <<vec[i][1], vec[i][2]>>
+        IN [VectorLands   |-> BSub(Lim(1), Lim(3)) = dx /\ BSub(Lim(2), Lim(3)) = dy,
+            VectorMinimal |-> BAdd(BAdd(BAbs(Lim(1)), BAbs(Lim(2))), BAbs(Lim(3))) = MeshClosedBig(dx, dy)]
     [] e[1] = "mvec" ->
         [VectorLands   |-> Land(XyzToXy(e[2]), e[4], 0, 0) = XyzToXy(e[3]),
          VectorMinimal |-> Hops(e[4]) = MeshDist(XyzToXy(e[2]), XyzToXy(e[3]))]
